@@ -461,10 +461,6 @@ theorem pin_opcodeLengths_spec :
     Generated.C13.opcodeLengths = (List.range 256).map (fun op => match opKind op with
       | .plain => (1 : Int) | .direct n => (n : Int) + 1 | .pushdata k => -(k : Int)) := by decide
 
-theorem pin_serializedHeightVersion (v : Int) :
-    shouldHaveSerializedBlockHeight v = decide (v ≥ Generated.C13.serializedHeightVersion) := by
-  simp [shouldHaveSerializedBlockHeight, Generated.C13.serializedHeightVersion]
-
 theorem pin_weight_consts :
     Generated.C13.witnessScaleFactor = (WITNESS_SCALE_FACTOR : Int) ∧ Generated.C13.blockHeaderLen = 80 ∧
     Generated.C13.maxBlockWeight = 4000000 ∧ Generated.C13.maxBlockSigOpsCost = 80000 := by decide
@@ -479,7 +475,6 @@ theorem pin_sigop_consts :
     Generated.C13.opInvalidOpcode = (OP_INVALIDOPCODE : Int) ∧ Generated.C13.opPushData1 = 76 ∧
     Generated.C13.op1Negate = 0x4f ∧
     Generated.C13.opHash160 = 0xa9 ∧ Generated.C13.opData20 = 0x14 ∧ Generated.C13.opEqual = 0x87 ∧
-    Generated.C13.payToWitnessPubKeyHashDataSize = 20 ∧ Generated.C13.payToWitnessScriptHashDataSize = 32 ∧
     Generated.C13.baseSegwitWitnessVersion = 0 ∧ Generated.C13.taprootWitnessVersion = 1 := by decide
 
 theorem pin_locktime_consts :
